@@ -282,3 +282,80 @@ def stateful_spec(rng):
         for g in spec['glyphs']:
             g['attrs'][6] = rng.choice([0xFFFF, 0xFFFF, 1, 2, 3, 5, 0])
     return spec
+
+
+def cmap_spec(rng):
+    """Well-formed fonts whose interest is the cmap: many segments, block-boundary segments, idRangeOffset arrays with
+    holes, wrapping deltas, U+FFFF / U+10FFFF mapped, format 12 groups at plane boundaries, BMP code points inside the
+    format 12 table (consistent or not with format 4), pseudo glyphs.  One positioning pass and no substitution pass,
+    so the first slot of a one-character segment shows the cmap / pseudo result directly."""
+    ng = rng.choice([8, 40, 300])
+    glyphs = [{'adv': 500, 'attrs': {1: 0}}] + [{'adv': 200 + (7 * g) % 600, 'attrs': {1: 0}} for g in range(1, ng)]
+    m = {}
+    style = rng.randrange(5)
+    nseg = rng.choice([1, 3, 20, 200, 1500]) if style else 2000
+    cp = rng.randrange(0x20, 0x200)
+    for _ in range(nseg):
+        if rng.random() < 0.3:
+            cp = (cp | 0xFF) - rng.randrange(0, 3)        # straddle a 256-block boundary
+        ln = rng.choice([1, 1, 2, 5, 40]) if nseg > 100 else rng.choice([1, 3, 30, 300])
+        g0 = rng.randrange(1, ng)
+        for i in range(ln):
+            if cp + i < 0xFFFF:
+                m[cp + i] = (g0 + i) % ng or 1
+        cp += ln + rng.choice([1, 1, 2, 17, 300])
+        if cp >= 0xFFF0:
+            break
+    if rng.random() < 0.5:
+        m[0xFFFF] = rng.randrange(1, ng)
+    if rng.random() < 0.3:
+        m[0xFFFE] = rng.randrange(1, ng)
+    if rng.random() < 0.3:
+        m[0xD7FF] = rng.randrange(1, ng)
+        m[0xE000] = rng.randrange(1, ng)
+    for c in range(0x61, 0x67):
+        m.setdefault(c, 1 + (c - 0x61) % (ng - 1))
+    spec = {'glyphs': glyphs, 'cmap': m, 'nattrs': 8, 'user': 0, 'classes': [[1]], 'nlinear': 1, 'dir': 0,
+            'passes': [{'type': 'pos', 'pre': 0, 'maxloop': 1, 'rules': [{'pat': [0], 'acts': [[('attr', 'ShiftY', ('const', 0))]], 'cons': [None], 'ret': 0}]}],
+            'cmap_ro_seed': rng.randrange(1 << 30) if rng.random() < 0.7 else None}
+    if rng.random() < 0.7:
+        groups = []
+        pts = [0x10000, 0x10001, 0x1FFFE, 0x1FFFF, 0x20000, 0x2FFFF, 0x30000, 0xE0000, 0xEFFFF, 0xF0000, 0x10FFFE, 0x10FFFF]
+        cur = 0x10000 if rng.random() < 0.6 else rng.choice(pts)
+        for _ in range(rng.choice([1, 2, 5, 40])):
+            ln = rng.choice([1, 1, 2, 16, 300, 70000 if rng.random() < 0.1 else 3])
+            end = min(cur + ln - 1, 0x10FFFF)
+            groups.append((cur, end, rng.randrange(1, 60000)))
+            if end >= 0x10FFFF:
+                break
+            cur = end + 1 + rng.choice([0, 0, 1, 255, 0x1000, 0x20000])       # adjacent groups are frequent
+            if rng.random() < 0.3:
+                cur = max(cur, rng.choice(pts))
+            if cur > 0x10FFFF:
+                break
+        if rng.random() < 0.4 and (not groups or groups[-1][1] < 0x10FFFF):
+            groups.append((0x10FFFF, 0x10FFFF, rng.randrange(1, ng)))
+        bmp12 = rng.random()
+        if bmp12 < 0.35:
+            # BMP characters inside the format 12 table
+            consistent = rng.random() < 0.5
+            bg = []
+            for c in sorted(rng.sample(sorted(m), min(len(m), 6))):
+                if c < 0xFFFF:
+                    bg.append((c, c, m[c] if consistent else (m[c] % (ng - 1)) + 1))
+            if rng.random() < 0.5:
+                bg.append((0x41, 0x42, 3))         # mapped by format 12 only
+            groups = sorted(set(bg)) + groups
+            spec['tags'] = ['bmp-in-format12-' + ('consistent' if consistent else 'inconsistent')]
+        spec['cmap12'] = groups
+    if rng.random() < 0.5:
+        # pseudo glyphs: attribute-only glyphs beyond maxp.numGlyphs whose attribute 0 names the real glyph
+        spec['extra_attr_glyphs'] = []
+        spec['pseudos'] = []
+        for i in range(rng.randrange(1, 5)):
+            u = rng.choice([0x25CC + i, 0xF000 + i, 0x1F600 + i, 0x41 + i, 0x10FFFF - i])
+            if u in m:
+                continue
+            spec['extra_attr_glyphs'].append({'attrs': {0: rng.randrange(1, ng), 1: 0}})
+            spec['pseudos'].append((u, ng + len(spec['extra_attr_glyphs']) - 1))
+    return spec
